@@ -23,6 +23,10 @@ HotClauses(o) ==
   \cup (IF o.ge1 = 0 \/ \A j \in 1..N(o) : o.hot[j] >= o.nom[j] - o.tol THEN {} ELSE {"NeverBelowNominal"})
   \cup (IF o.out # 0 \/ \A j \in 1..N(o) : Close(o.hot[j], o.zero[j], o.tol) THEN {} ELSE {"ZeroSigmaIsDirectProduct"})
   \cup (IF o.ge1 = 0 \/ \A j \in 1..(N(o) - 1) : o.hot[j] <= o.hot[j + 1] + o.tol THEN {} ELSE {"SequenceIsCumulative"})
+  \* each entry adds its own temperature rise only: it is the hot spot of
+  \* the rises up to and including its own (o.own: the same table evaluated
+  \* with the later rises left out)
+  \cup (IF \A j \in 1..N(o) : Close(o.hot[j], o.own[j], o.tol) THEN {} ELSE {"EntryDependsOnlyOnRisesUpToItsOwn"})
 \* against earlier events of the same table: the statistical part
 \* (hot - zero) is proportional to OUT / IN
 PairClauses(o) ==
